@@ -5,8 +5,9 @@ import os
 
 from .wire import Obj, parse_ordered
 
-TD = "/repo/jsonschema/testdata"
-META = "/repo/jsonschema/meta-schemas"
+import os as _os
+TD = _os.environ.get("VERIF_REPO", "/repo") + "/jsonschema/testdata"
+META = _os.environ.get("VERIF_REPO", "/repo") + "/jsonschema/meta-schemas"
 D7 = "https://json-schema.org/draft-07/schema#"
 
 
